@@ -177,9 +177,12 @@ def main():
 def supervise():
     """run the check in a child process: when the implementation under test kills the interpreter (SIGSEGV, SIGABRT from a double
     free, ...) during an in-process correspondence run, that is reported as a violation with the crash as the replay, not as a dead check"""
-    import subprocess, tempfile
+    import subprocess, tempfile, shutil, atexit
     a = sys.argv[1:]
-    env = dict(os.environ, VERIF_SUPERVISED='1', PYTHONFAULTHANDLER='1')
+    # scratch builds of the child live in a directory the supervisor removes whatever happens to the child (crash, time-out, kill)
+    sc = tempfile.mkdtemp(prefix='cvxverif_sup_', dir=os.environ.get('VERIF_SCRATCH', '/tmp'))
+    atexit.register(lambda: shutil.rmtree(sc, ignore_errors=True))
+    env = dict(os.environ, VERIF_SUPERVISED='1', PYTHONFAULTHANDLER='1', VERIF_SCRATCH=sc)
     r = subprocess.run([sys.executable, os.path.abspath(__file__)] + a, env=env)
     if r.returncode in (0, 1, 2): return r.returncode
     prop = a[0]; tier = os.environ.get('VERIF_TIER', 'quick')
